@@ -8,6 +8,27 @@ BASE = "cd /repo && /venv/bin/python -m pytest -ra -q -p no:cacheprovider --time
 
 # id -> dict(level, text, note, technique, design_ref, engine)
 CLAIMS = {
+ "C12": dict(
+  level="model_checking",
+  text="Mpi.tla specifies the 48-byte record (policy table, reserved bytes, UUIDs, 0xFF fill) and the merged area "
+       "(inputs at their original addresses, 0xFF elsewhere, digest appended, outside/overlap => reject). TLC checks the "
+       "merge state machine exhaustively over all placements of <= 3 records around a small area and the policy table; the "
+       "TLC-enumerated placements are scaled to real records and replayed into the real mpi generate/merge; every output "
+       "hex file is judged record by record by TLC through the Intel-HEX reader machine (Hex.tla) against the image the "
+       "spec builds.",
+  note="Trusted: TLC, the verifier's hex tokenizer, hashlib (SHA-256 of the read-back area, believed only when TLC finds "
+       "the area equal to the specified image), own UUIDv5. Sizes >= 48 as the property states.",
+  technique="TLA+ spec (Mpi.tla, Hex.tla) + TLC exhaustive model checking + TLC-generated placements replayed + TLC trace validation of real hex output",
+  design_ref="DESIGN.md 4.8, 4.9, 5 (C12)", engine="tlc"),
+ "C16": dict(
+  level="model_checking",
+  text="Update.tla builds the update-candidate record and the partition image from the scenario parameters on 16-bit "
+       "limbs; Hex.tla gives hex files their memory-image meaning. TLC checks a writer model against the reader machine "
+       "across 64 KiB boundaries (faulty writers must be rejected), and validates every record of the files written by the "
+       "real `image update` (library and CLI) over sizes, addresses up to 2^32 and cache counts 0..16.",
+  note="Trusted: TLC, the verifier's hex tokenizer (checksums verified). address + size <= 2^32.",
+  technique="TLA+ spec (Update.tla, Hex.tla) + TLC model checking of the HEX reader/writer + TLC trace validation of real hex output",
+  design_ref="DESIGN.md 4.9, 4.11, 5 (C16)", engine="tlc"),
  "C10": dict(
   level="model_checking",
   text="Cache.tla specifies the partition at byte level (implementation layer with a CBOR walker) and at property level "
